@@ -13,13 +13,13 @@ import signac._utility as UT
 
 E2 = True
 NSCHED = 72
-CODE = ["signac._utility._mkdir_p", "signac.job.Job.init / _StatePointDict.save / load", "signac.job.Job.document (read / write)", "signac.project.Project._job_dirs / __len__ / __iter__ / _get_statepoint",
+CODE = ["signac.project.Project.__init__ (workspace creation)", "signac._utility._mkdir_p", "signac.job.Job.init / _StatePointDict.save / load", "signac.job.Job.document (read / write)", "signac.project.Project._job_dirs / __len__ / __iter__ / _get_statepoint",
         "synced_collections JSON backend (temp file + os.replace)"]
-BOUNDS = {"actors": "2 (quick, thorough) and 3 (thorough, pre-emption bound 1)", "scripts": "init same job / init different jobs / write own job's document / read the other's document / len+iterate / Project()-equivalent workspace creation; "
+BOUNDS = {"actors": "2 (quick, thorough) and 3 (thorough, pre-emption bound 1)", "scripts": "init same job / init different jobs / write own job's document / read the other's document / len+iterate / the real Project() constructor on a project without a workspace directory; "
           "from an empty and from a populated workspace", "schedules": "every interleaving at file-system-step granularity (queries are scheduling points too) up to the sleep-set reduction; "
           "quick: at most 2 pre-emptions; thorough: at most 4 pre-emptions for 2 actors", "schedule length": "72 decision points (paths needing more are reported as inconclusive, never as success)"}
 OUTSIDE = ["reading the state point of a job while another process is between creating its directory and writing its state point file (inherent window; raises JobsCorruptedError)", "more than 3 actors", "concurrent writers of the SAME document (not in the property)", "pre-emption inside a single file-system call", "schedules beyond the pre-emption bound"]
-STUBS = ["MemFS with atomic steps", "actors are threads in one interpreter: the per-file thread-lock table of synced_collections is keyed per actor and temp-file uuids are per actor, as separate processes would have them"]
+STUBS = ["MemFS with atomic steps", "signac.project._load_config -> constant configuration (configobj reads a real file)", "actors are threads in one interpreter: the per-file thread-lock table of synced_collections is keyed per actor and temp-file uuids are per actor, as separate processes would have them"]
 ASSUMPTIONS = ["each file-system call is atomic (MemFS rules: rename atomic, mkdir fails EEXIST, makedirs(exist_ok) tolerates a concurrent creator)"]
 
 SP = [{"a": 0}, {"a": 1}]
@@ -48,9 +48,8 @@ def _script(kind, idx, fs, log):
             n = len(pr)
             ids = sorted(j.id for j in pr)      # handles only: reading the state point of a job that another process is just creating is outside the property
             log.append(("listed", idx, n, ids))
-        elif kind == 5:    # Project()-equivalent: make sure the workspace exists, then init
-            if not UT.os.path.isdir(pr.workspace):
-                UT._mkdir_p(pr.workspace)
+        elif kind == 5:    # the REAL Project constructor (config parsing stubbed) on a project whose workspace may not exist yet, then init
+            pr = P.Project("/p")
             pr.open_job(SP[idx % 2]).init()
     return body
 
@@ -66,6 +65,8 @@ def _case(k0, k1, k2, nact, populated, schedule, pb):
     fs = memfs.MemFS()
     memfs.install(fs)
     problems = []
+    old_load = P._load_config
+    P._load_config = lambda path=None: {"schema_version": "2"}   # configobj parsing of a real file: stubbed (constant configuration)
     try:
         fs.put_dir("/p")
         fs.put("/p/.signac/config", b"schema_version = 2\n")
@@ -152,6 +153,7 @@ def _case(k0, k1, k2, nact, populated, schedule, pb):
                         problems.append(("iterated a foreign id", i_))
     finally:
         _CLOCK[0] = None
+        P._load_config = old_load
         memfs.uninstall()
     return (not problems), problems
 
